@@ -1067,6 +1067,8 @@ theorem pyPow_noMA {l r e : Val ℝ} (h : pyPow l r = .ok e) (hl : noMA l = true
 /-- a program over the operator algebra: bare numbers and strings, `Constant`, `Symbol`, and the six operators -/
 inductive Prog
   | raw (x : ℝ) | str (s : String) | const (x : ℝ) | sym (s : String)
+  /-- any already built expression (an instance of any class: Poly, Arrhenius, Radiolytic, …) used as a leaf -/
+  | leaf (v : Val ℝ)
   | neg (p : Prog) | add (p q : Prog) | sub (p q : Prog) | mul (p q : Prog) | div (p q : Prog) | pow (p q : Prog)
 
 /-- the tree the overloaded operators build -/
@@ -1075,6 +1077,7 @@ noncomputable def Prog.build : Prog → Except Err (Val ℝ)
   | .str s => .ok (.str s)
   | .const x => .ok (constNode x)
   | .sym s => .ok (symbolNode s)
+  | .leaf v => .ok v
   | .neg p => do pyNeg (← p.build)
   | .add p q => do pyAdd (← p.build) (← q.build)
   | .sub p q => do pySub (← p.build) (← q.build)
@@ -1088,6 +1091,7 @@ noncomputable def Prog.meaning (ctx : Ctx ℝ) : Prog → Except Err ℝ
   | .str s => ctx.get s
   | .const x => .ok x
   | .sym s => ctx.get s
+  | .leaf v => eval ctx v
   | .neg p => do pure (-(← p.meaning ctx))
   | .add p q => do pure ((← p.meaning ctx) + (← q.meaning ctx))
   | .sub p q => do pure ((← p.meaning ctx) - (← q.meaning ctx))
@@ -1095,11 +1099,13 @@ noncomputable def Prog.meaning (ctx : Ctx ℝ) : Prog → Except Err ℝ
   | .div p q => do pyDiv (← p.meaning ctx) (← q.meaning ctx)
   | .pow p q => do PyNum.pow (← p.meaning ctx) (← q.meaning ctx)
 
-/-- no subtraction whose subtrahend is the bare empty string (`x - ""` returns `x`) -/
+/-- no subtraction whose subtrahend is the bare empty string (`x - ""` returns `x`); leaves of other classes have the shape
+the operators construct (`plainOps`) and contain no `MassAction` (whose `*` `/` act on the coefficient) -/
 noncomputable def Prog.okSub : Prog → Prop
   | .neg p => p.okSub
   | .add p q | .mul p q | .div p q | .pow p q => p.okSub ∧ q.okSub
   | .sub p q => p.okSub ∧ q.okSub ∧ q.build ≠ .ok (.str "")
+  | .leaf v => plainOps v = true ∧ noMA v = true
   | _ => True
 
 theorem bind_ok_inv {γ δ : Type} {x : Except Err γ} {f : γ → Except Err δ} {d : δ} (h : (x >>= f) = .ok d) :
@@ -1130,6 +1136,10 @@ theorem prog_spec (ctx : Ctx ℝ) : ∀ (p : Prog) (e : Val ℝ) (v : ℝ), p.bu
     refine ⟨?_, by simp [symbolNode, plainOps, plainOpsList], by simp [symbolNode, noMA, noMAList]⟩
     have hm' : ctx.get s = .ok v := hm
     simpa [symbolNode, eval, call] using hm'
+  | leaf w =>
+    intro e v hb hm hs
+    cases hb
+    exact ⟨hm, hs.1, hs.2⟩
   | neg p ih =>
     intro e v hb hm hs
     obtain ⟨e1, hb1, hop⟩ := bind_ok_inv hb
